@@ -677,10 +677,18 @@ def fam_parmoves(rnd, i):
     for d in dirs:
         steps.append(call(w, "add", d, "rel"))
     rounds = rnd.randint(3, 12)
-    threads = []
-    for d in dirs:
-        threads.append([fs("rename", d + ("f%d" % r,), to=d + ("f%d" % (r + 1),)) for r in range(rounds)])
-    steps.append({"s": "par", "threads": threads})
+    if rnd.random() < 0.25:
+        # many moves at once: more than ten other moves out may lie between the halves of one move (ring of ten)
+        threads = []
+        for d in dirs:
+            threads.append([fs("rename", d + ("f%d" % r,), to=d + ("f%d" % (r + 1),)) for r in range(rounds)])
+        steps.append({"s": "par", "threads": threads})
+    else:
+        # one move per thread at a time: at most nt-1 <= 5 foreign halves in between, well within the ring
+        for r in range(rounds):
+            steps.append({"s": "par", "threads": [[fs("rename", d + ("f%d" % r,), to=d + ("f%d" % (r + 1),))] for d in dirs]})
+            if rnd.random() < 0.3:
+                steps.append(fdrain(rnd, w))
     steps += [fdrain(rnd, w), call(w, "watchlist"), obs(w)]
     return steps
 
